@@ -4,7 +4,15 @@
    Uper/CompatFullProofs.v are restated for a writer component list and a reader component list that
    differ in their component types; the per-component fact is [Cprop] (the reader of one type on the
    reference encoding of the other).  An unknown CHOICE alternative / ENUMERATED item anywhere inside an
-   encoded position makes the whole read fail with InvalidChoiceIndex. *)
+   encoded position makes the whole read fail with InvalidChoiceIndex.
+   What the reader does inside scopes, as far as it matters here: a nested type read while an outer
+   presence scope is active factors through the same reader with no scope (read_ty_factor, stashed_read
+   of Uper/Proofs.v); inside an open type the inner reader stops after the last addition it skipped (the
+   padding of the open type is still ahead) and read_whole_sub_slice repositions the cursor to the end of
+   the window on success, and passes an inner error on unchanged.
+   Main results: compat_deep (one induction for both directions), C05_forward_deep_thm,
+   C05_backward_deep_thm, conv_none_unknown (the old reader fails only on an unknown alternative/item),
+   extends_deep_trans. *)
 From A1 Require Import Uper.Spec Uper.Proofs Uper.CompatProofs Uper.CompatFullProofs.
 From A1 Require Import Bits.Proofs.
 From A1 Require Import Per.Proofs.
@@ -107,7 +115,6 @@ Fixpoint pad_deep (V1 V2 : ty) (v : val) {struct V1} : val :=
 (** * the per-component fact and the walks over two component lists *)
 Section Walk.
 Variable m : mode.
-Variable tr : ty -> ty -> val -> option val.
 
 Definition Cprop (W R : ty) (f : val -> option val) : Prop :=
   forall v bs, enc m W v = Ok bs -> wf_val W v -> ~ Known_C01 m W v ->
@@ -117,9 +124,6 @@ Definition Cprop (W R : ty) (f : val -> option val) : Prop :=
   | Some v' => Ok (v', r_of_src (src_adv s (bl bs) tail))
   | None => Err E_INVALID_CHOICE
   end.
-
-Definition oret {A} (o : option A) (k : A -> rst) : res (A * rst) :=
-  match o with Some x => Ok (x, k x) | None => Err E_INVALID_CHOICE end.
 
 Lemma open_read_o {A} cb wb s tail (f : rst -> res (A * rst)) (ox : option A) :
   wrap_open m cb = Ok wb -> (bl cb + 7) / 8 < 16384 -> rsrc s wb tail ->
@@ -153,6 +157,59 @@ Proof.
   apply rsrc_split in H2. destruct H2 as [H2 _].
   rewrite (Hf _ _ H2). reflexivity.
 Qed.
+
+(** ** SEQUENCE OF *)
+Lemma relems_spec2 eW eR f : Cprop eW eR f ->
+  forall vs body s tail acc, enc_elems m eW vs = Ok body -> all_wf_val eW vs -> ~ any_known m eW vs ->
+  rsrc s body tail ->
+  relems m eR false (length vs) (r_of_src s) acc =
+  match tr_list f vs with
+  | Some vs' => Ok (VList (rev acc ++ vs'), r_of_src (src_adv s (bl body) tail))
+  | None => Err E_INVALID_CHOICE
+  end.
+Proof.
+  intros IH. induction vs as [|x vs IHl]; intros body s tail acc He Hv Hk Hs.
+  - cbn [enc_elems] in He. injection He as <-. cbn [length relems tr_list]. unfold frev.
+    rewrite rev_append_rev, !app_nil_r, bl_nil, (src_adv_nil _ _ (proj1 Hs)). reflexivity.
+  - cbn [enc_elems] in He. destruct (enc m eW x) as [a| |] eqn:Ea; cbn [bind] in He; try discriminate He.
+    destruct (enc_elems m eW vs) as [b| |] eqn:Eb; cbn [bind] in He; try discriminate He. injection He as <-.
+    cbn [all_wf_val] in Hv. destruct Hv as [Hx Hv]. cbn [any_known] in Hk.
+    apply rsrc_split in Hs. destruct Hs as [H1 H2].
+    cbn [length relems tr_list]. rewrite (IH x a Ea Hx (fun C => Hk (or_introl C)) _ _ H1).
+    destruct (f x) as [y|]; [|reflexivity]. cbn [bind andb].
+    rewrite (IHl b _ tail (y :: acc) eq_refl Hv (fun C => Hk (or_intror C)) H2).
+    destruct (tr_list f vs) as [vs'|]; [|reflexivity].
+    cbn [option_map rev]. rewrite <- app_assoc. cbn [app].
+    rewrite src_adv_adv, bl_app. reflexivity.
+Qed.
+
+Definition conv_list (f : val -> option val) (v : val) : option val :=
+  match v with VList vs => option_map VList (tr_list f vs) | _ => Some v end.
+
+Lemma C_list eW eR f lo hi ext : Cprop eW eR f ->
+  Cprop (TListOf eW lo hi ext) (TListOf eR lo hi ext) (conv_list f).
+Proof.
+  intros IH v bs He Hv Hk s tail Hs. destruct v; try discriminate He; try contradiction Hv.
+  cbn [enc] in He. fold (enc_elems m eW) in He.
+  destruct (len_hdr m ext lo hi I64_MAX (N.of_nat (length vs))) as [h| |] eqn:Eh; cbn [bind] in He; try discriminate He.
+  destruct (enc_elems m eW vs) as [body| |] eqn:Eb; cbn [bind] in He; try discriminate He. injection He as <-.
+  cbn [wf_val] in Hv. destruct Hv as [Hlen Hv]. cbn [Known_C01] in Hk.
+  cbn [read_ty conv_list]. rewrite rentry_none' by reflexivity. cbn [bind]. rewrite rwith_buffer_none by reflexivity.
+  apply rsrc_split in Hs. destruct Hs as [H1 H2].
+  destruct (len_hdr_read m ext lo hi I64_MAX _ h s _ Eh (fun C => Hk (or_introl C)) (proj1 H1)) as [E Hn]. rewrite E. cbn [bind].
+  destruct (N.ltb_spec 0 (N.of_nat (length vs))) as [L|L].
+  - unfold rscope_stashed. change (r_set_scope (r_of_src ?x) None) with (r_of_src x). cbn [r_scope r_of_src].
+    rewrite alloc_ok by (unfold ALLOC_LIMIT; lia). cbn [bind]. cbv zeta.
+    destruct (N.ltb_spec LOOP_LIMIT (N.of_nat (length vs))) as [L2|L2]; [unfold LOOP_LIMIT in L2; lia|].
+    rewrite Nat2N.id. fold (relems m eR false).
+    rewrite (relems_spec2 eW eR f IH vs body _ tail [] Eb Hv (fun C => Hk (or_intror C)) H2).
+    destruct (tr_list f vs) as [vs'|]; [|reflexivity]. cbn [bind rev app option_map].
+    rewrite src_adv_adv, bl_app. reflexivity.
+  - destruct vs; [|cbn [length] in L; lia]. cbn [enc_elems] in Eb. injection Eb as <-.
+    rewrite app_nil_r. cbn [app tr_list option_map]. reflexivity.
+Qed.
+
+Variable tr : ty -> ty -> val -> option val.
 
 (** ** one component *)
 Lemma rfield_spec2 k ftW ftR ov p b s sc ob s1 sc1 opn :
@@ -648,13 +705,6 @@ Qed.
 Lemma Forall2_length' {A B} (P : A -> B -> Prop) l l' : Forall2 P l l' -> length l = length l'.
 Proof. induction 1; cbn [length]; congruence. Qed.
 
-Lemma comp_ok_nopt : forall fsW fsR, Forall2 comp_ok fsW fsR -> nopt fsR = nopt fsW.
-Proof.
-  induction 1 as [|[k tW] [k' tR] fsW fsR Hc F IH]; [reflexivity|].
-  destruct Hc as (C1 & _). cbn [fst] in C1. subst k'. unfold nopt in *. cbn [filter fst].
-  destruct (is_optk k); cbn [length]; congruence.
-Qed.
-
 Lemma option_map_app_nil {A} (o : option (list A)) : option_map (app []) o = o.
 Proof. destruct o; reflexivity. Qed.
 
@@ -687,9 +737,6 @@ Proof.
   destruct vals as [|ov vals]; [reflexivity|].
   cbn [length firstn]. rewrite !tr_vals_cons, IH. reflexivity.
 Qed.
-
-Lemma tr_vals_one_side : forall wx rx vals, (rx = [] \/ wx = []) -> tr_vals tr wx rx vals = Some [].
-Proof. intros wx rx vals [-> | ->]; [destruct wx as [|[? ?] ?]; reflexivity|reflexivity]. Qed.
 
 Theorem seq_compat2 cW cR wx rx so fcW fcR e vals bs s tail :
   wf_ty (TSeq (cW ++ wx) so fcW (Some e)) -> wf_ty (TSeq (cR ++ rx) so fcR (Some e)) ->
@@ -798,55 +845,755 @@ Proof.
   unfold s2. rewrite src_adv_adv, bl_app. reflexivity.
 Qed.
 
-(** ** SEQUENCE OF *)
-Lemma relems_spec2 eW eR f : Cprop eW eR f ->
-  forall vs body s tail acc, enc_elems m eW vs = Ok body -> all_wf_val eW vs -> ~ any_known m eW vs ->
-  rsrc s body tail ->
-  relems m eR false (length vs) (r_of_src s) acc =
-  match tr_list f vs with
-  | Some vs' => Ok (VList (rev acc ++ vs'), r_of_src (src_adv s (bl body) tail))
+(** ** CHOICE *)
+Lemma rscope_stashed_o {A} s (f : rst -> res (A * rst)) (ox : option A) s' :
+  f (r_of_src s) = match ox with Some x => Ok (x, r_of_src s') | None => Err E_INVALID_CHOICE end ->
+  rscope_stashed (r_of_src s) f = match ox with Some x => Ok (x, r_of_src s') | None => Err E_INVALID_CHOICE end.
+Proof.
+  unfold rscope_stashed. change (r_set_scope (r_of_src s) None) with (r_of_src s). intros ->.
+  destruct ox; reflexivity.
+Qed.
+
+(* an open type whose content reader does not move: the cursor still jumps to the end of the window *)
+Lemma open_read_stay {A} cb wb s tail (f : rst -> res (A * rst)) y :
+  wrap_open m cb = Ok wb -> (bl cb + 7) / 8 < 16384 -> rsrc s wb tail ->
+  (forall r, f r = Ok (y, r)) ->
+  (let! (len, r2) := r_get (r_of_src s) (r_length_determinant m None None) in
+   read_whole_sub_slice m r2 len f) = Ok (y, r_of_src (src_adv s (bl wb) tail)).
+Proof.
+  intros Hw Hn Hs Hf.
+  pose proof (wrap_open_small m cb wb Hw Hn) as E.
+  set (n := (bl cb + 7) / 8) in *. set (pad := repeat false (pad8 (length cb))) in *.
+  assert (Hpad : bl cb + bl pad = 8 * n).
+  { pose proof (f_equal bl (bits_of_bytes_of_bits cb)) as EL. rewrite bits_len8, bytes_of_bits_len, bl_app in EL.
+    fold pad n in EL. lia. }
+  assert (Hwb : bl wb = bl (x_len_short n) + 8 * n) by (rewrite E, !bl_app; lia).
+  pose proof Hs as Hs0. rewrite E in Hs. apply rsrc_split in Hs. destruct Hs as [H1 H2].
+  assert (Ex : x_length None None n = Some (x_len_first n)).
+  { unfold x_length. destruct (N.leb_spec 0 n); [reflexivity|lia]. }
+  rewrite <- (x_len_first_short n Hn) in H1, H2.
+  rewrite r_get_of_src.
+  rewrite (length_read m None None n _ s _ ltac:(intros C; apply C; reflexivity) Ex (proj1 H1)).
+  unfold len_result, len_frag. rewrite frag_of_short by exact Hn. cbn [bind].
+  unfold read_whole_sub_slice. cbn [r_src r_of_src].
+  destruct Hs0 as [(_ & HL & HT) (_ & H64)].
+  assert (U1 : umul m n BYTE_LEN = Ok (8 * n)).
+  { unfold umul, BYTE_LEN. destruct (N.ltb_spec (n * 8) two64) as [L|L]; [f_equal; lia|unfold two64 in L; lia]. }
+  rewrite U1. cbn [bind]. unfold src_adv at 1. cbn [s_pos].
+  rewrite (x_len_first_short n Hn) in *.
+  rewrite uadd_ok by lia. cbn [bind].
+  rewrite Hf. cbn [bind]. unfold r_set_src. cbn [r_src r_scope r_of_src].
+  replace (s_pos s + bl (x_len_short n) + 8 * n) with (s_pos s + bl wb) by lia.
+  match goal with |- context [src_set_pos ?a ?b] =>
+    assert (Efin : src_set_pos a b = src_adv s (bl wb) tail) end.
+  { apply src_set_pos_end; [rewrite E; split; [|exact (proj2 H1)]|].
+    - destruct H1 as [H1 _]. destruct H1 as (R & _). split; [rewrite R, <- !app_assoc; reflexivity|].
+      rewrite <- E. split; lia.
+    - apply same_buf_adv. }
+  rewrite Efin. reflexivity.
+Qed.
+
+Definition alts_ok (aW aR : list ty) : Prop :=
+  forall n tW tR, nth_error aW n = Some tW -> nth_error aR n = Some tR -> Cprop tW tR (tr tW tR).
+
+Lemma alts_ok_tl tW aW tR aR : alts_ok (tW :: aW) (tR :: aR) -> alts_ok aW aR.
+Proof. intros H n a b Ha Hb. apply (H (S n)); assumption. Qed.
+
+Lemma tr_pick_beyond x : forall aW aR n, (length aR <= n)%nat -> tr_pick tr x aW aR n = None.
+Proof.
+  induction aW as [|tW aW IH]; intros [|tR aR] [|n] H; cbn [length] in H; try lia; try reflexivity.
+  cbn [tr_pick]. apply IH. lia.
+Qed.
+
+Lemma rpick_spec2 index std x : forall aW aR, alts_ok aW aR ->
+  forall i cb, enc_pick m x aW i = Ok cb -> pick_wf x aW i -> ~ pick_known m std index x aW i ->
+  (i < length aR)%nat ->
+  forall s tl, rsrc s cb tl ->
+  rpick m index (r_of_src s) aR i =
+  match tr_pick tr x aW aR i with
+  | Some x' => Ok (Some (VChoice index x'), r_of_src (src_adv s (bl cb) tl))
   | None => Err E_INVALID_CHOICE
   end.
 Proof.
-  intros IH. induction vs as [|x vs IHl]; intros body s tail acc He Hv Hk Hs.
-  - cbn [enc_elems] in He. injection He as <-. cbn [length relems tr_list]. unfold frev.
-    rewrite rev_append_rev, !app_nil_r, bl_nil, (src_adv_nil _ _ (proj1 Hs)). reflexivity.
-  - cbn [enc_elems] in He. destruct (enc m eW x) as [a| |] eqn:Ea; cbn [bind] in He; try discriminate He.
-    destruct (enc_elems m eW vs) as [b| |] eqn:Eb; cbn [bind] in He; try discriminate He. injection He as <-.
-    cbn [all_wf_val] in Hv. destruct Hv as [Hx Hv]. cbn [any_known] in Hk.
-    apply rsrc_split in Hs. destruct Hs as [H1 H2].
-    cbn [length relems tr_list]. rewrite (IH x a Ea Hx ltac:(tauto) _ _ H1).
-    destruct (f x) as [y|]; [|reflexivity]. cbn [bind andb].
-    rewrite (IHl b _ tail (y :: acc) eq_refl Hv ltac:(tauto) H2).
-    destruct (tr_list f vs) as [vs'|]; [|reflexivity].
-    cbn [option_map rev]. rewrite <- app_assoc. cbn [app].
-    rewrite src_adv_adv, bl_app. reflexivity.
+  induction aW as [|tW aW IHl]; intros aR HC i cb He Hv Hk Hi s tl Hs; [destruct i; discriminate He|].
+  destruct aR as [|tR aR]; [cbn [length] in Hi; lia|].
+  destruct i as [|i]; cbn [enc_pick pick_wf pick_known rpick length tr_pick] in *.
+  - rewrite (HC 0%nat tW tR eq_refl eq_refl x cb He Hv ltac:(tauto) s tl Hs).
+    destruct (tr tW tR x); reflexivity.
+  - apply (IHl aR (alts_ok_tl _ _ _ _ HC) i cb He Hv Hk ltac:(lia) s tl Hs).
 Qed.
 
-Definition conv_list (f : val -> option val) (v : val) : option val :=
-  match v with VList vs => option_map VList (tr_list f vs) | _ => Some v end.
+Definition conv_choice (aW aR : list ty) (v : val) : option val :=
+  match v with
+  | VChoice i x => option_map (VChoice i) (tr_pick tr x aW aR (N.to_nat i))
+  | _ => Some v
+  end.
 
-Lemma C_list eW eR f lo hi ext : Cprop eW eR f ->
-  Cprop (TListOf eW lo hi ext) (TListOf eR lo hi ext) (conv_list f).
+Lemma C_choice aW aR std ext :
+  wf_ty (TChoice aW std ext) -> wf_ty (TChoice aR std ext) -> alts_ok aW aR ->
+  Cprop (TChoice aW std ext) (TChoice aR std ext) (conv_choice aW aR).
 Proof.
-  intros IH v bs He Hv Hk s tail Hs. destruct v; try discriminate He; try contradiction Hv.
-  cbn [enc] in He. fold (enc_elems m eW) in He.
-  destruct (len_hdr m ext lo hi I64_MAX (N.of_nat (length vs))) as [h| |] eqn:Eh; cbn [bind] in He; try discriminate He.
-  destruct (enc_elems m eW vs) as [body| |] eqn:Eb; cbn [bind] in He; try discriminate He. injection He as <-.
-  cbn [wf_val] in Hv. destruct Hv as [Hlen Hv]. cbn [Known_C01] in Hk.
-  cbn [read_ty conv_list]. rewrite rentry_none' by reflexivity. cbn [bind]. rewrite rwith_buffer_none by reflexivity.
-  apply rsrc_split in Hs. destruct Hs as [H1 H2].
-  destruct (len_hdr_read m ext lo hi I64_MAX _ h s _ Eh ltac:(tauto) (proj1 H1)) as [E Hn]. rewrite E. cbn [bind].
-  destruct (N.ltb_spec 0 (N.of_nat (length vs))) as [L|L].
-  - unfold rscope_stashed. change (r_set_scope (r_of_src ?x) None) with (r_of_src x). cbn [r_scope r_of_src].
-    rewrite alloc_ok by (unfold ALLOC_LIMIT; lia). cbn [bind]. cbv zeta.
-    destruct (N.ltb_spec LOOP_LIMIT (N.of_nat (length vs))) as [L2|L2]; [unfold LOOP_LIMIT in L2; lia|].
-    rewrite Nat2N.id. fold (relems m eR false).
-    rewrite (relems_spec2 eW eR f IH vs body _ tail [] Eb Hv ltac:(tauto) H2).
-    destruct (tr_list f vs) as [vs'|]; [|reflexivity]. cbn [bind rev app option_map].
-    rewrite src_adv_adv, bl_app. reflexivity.
-  - destruct vs; [|cbn [length] in L; lia]. cbn [enc_elems] in Eb. injection Eb as <-.
-    rewrite app_nil_r. cbn [app tr_list option_map]. reflexivity.
+  intros HtyW HtyR HC v bs He Hv Hk s tail Hs.
+  destruct v as [| | | | | | | |index x|]; try discriminate He; try contradiction Hv.
+  cbn [wf_ty] in HtyW. destruct HtyW as (H1 & H2 & H3 & H4 & Hta). fold all_wf_ty in Hta.
+  cbn [wf_ty] in HtyR. destruct HtyR as (R1 & R2 & R3 & R4 & _).
+  rewrite enc_choice_eq in He.
+  destruct (w_enumeration_index m std ext index) as [ib| |] eqn:Ei; cbn [bind] in He; try discriminate He.
+  destruct (enc_pick m x aW (N.to_nat index)) as [cb| |] eqn:Ec; cbn [bind] in He; try discriminate He.
+  change (pick_wf x aW (N.to_nat index)) in Hv.
+  change (~ pick_known m std index x aW (N.to_nat index)) in Hk.
+  assert (F : Forall (Rprop m) aW) by (apply Forall_forall; intros a _; apply read_enc).
+  destruct (rpick_spec m index std x aW F Hta (N.to_nat index) cb Ec Hv Hk) as (Hlt & Hsmall & _).
+  assert (Hstd : std < two64) by (unfold SIZE_LIMIT in H3; unfold two64; lia).
+  assert (Hix : index < two64) by (unfold SIZE_LIMIT in H3; unfold two64; lia).
+  destruct (x_index std ext index) as [xb|] eqn:Ex.
+  2:{ rewrite (index_reject m std ext index Ex) in Ei. discriminate Ei. }
+  rewrite (index_write m std ext index xb Hstd Hix Ex) in Ei. injection Ei as <-.
+  cbn [read_ty conv_choice]. rewrite rentry_none' by reflexivity. cbn [bind].
+  apply rscope_stashed_o.
+  set (gpick := fun r0 : rst => if N.of_nat (length aR) <=? index then Ok (None, r0)
+                                else rpick m index r0 aR (N.to_nat index)).
+  destruct (N.leb_spec std index) as [L|L].
+  - destruct (wrap_open m cb) as [wb| |] eqn:Ew; cbn [bind] in He; try discriminate He. injection He as <-.
+    apply rsrc_split in Hs. destruct Hs as [Hs1 Hs2].
+    rewrite r_get_of_src, (index_read m std ext index xb s _ Hstd Hix Ex (proj1 Hs1)). cbn [bind].
+    rewrite (proj2 (N.leb_le std index) L).
+    match goal with |- context [read_whole_sub_slice m _ _ ?f] => change f with gpick end.
+    destruct (N.leb_spec (N.of_nat (length aR)) index) as [LR|LR].
+    + (* an alternative the reader does not have *)
+      rewrite tr_pick_beyond by lia. cbn [option_map].
+      rewrite (open_read_stay cb wb _ tail gpick None Ew (Hsmall L) Hs2).
+      * reflexivity.
+      * intros r. unfold gpick. rewrite ?(proj2 (N.leb_le _ _) LR). reflexivity.
+    + assert (Eg : N.of_nat (length aR) <=? index = false) by (apply N.leb_gt; exact LR).
+      destruct (tr_pick tr x aW aR (N.to_nat index)) as [x'|] eqn:Et.
+      * rewrite (open_read_o cb wb _ tail gpick (Some (Some (VChoice index x'))) Ew (Hsmall L) Hs2).
+        -- cbn [bind option_map]. rewrite src_adv_adv, bl_app. reflexivity.
+        -- intros s' tl' Hs'. unfold gpick. rewrite ?Eg.
+           rewrite (rpick_spec2 index std x aW aR HC (N.to_nat index) cb Ec Hv Hk ltac:(lia) s' tl' Hs'), Et.
+           reflexivity.
+      * rewrite (open_read_o cb wb _ tail gpick None Ew (Hsmall L) Hs2).
+        -- reflexivity.
+        -- intros s' tl' Hs'. unfold gpick. rewrite ?Eg.
+           rewrite (rpick_spec2 index std x aW aR HC (N.to_nat index) cb Ec Hv Hk ltac:(lia) s' tl' Hs'), Et.
+           reflexivity.
+  - injection He as <-. apply rsrc_split in Hs. destruct Hs as [Hs1 Hs2].
+    rewrite r_get_of_src, (index_read m std ext index xb s _ Hstd Hix Ex (proj1 Hs1)). cbn [bind].
+    rewrite (proj2 (N.leb_gt std index) L).
+    assert (Eg : N.of_nat (length aR) <=? index = false) by (apply N.leb_gt; lia).
+    match goal with |- bind ?X _ = _ =>
+      change X with (gpick (r_of_src (src_adv s (bl xb) (cb ++ tail)))) end.
+    unfold gpick. rewrite Eg.
+    rewrite (rpick_spec2 index std x aW aR HC (N.to_nat index) cb Ec Hv Hk ltac:(lia) _ _ Hs2).
+    destruct (tr_pick tr x aW aR (N.to_nat index)) as [x'|]; [|reflexivity].
+    cbn [bind option_map]. rewrite src_adv_adv, bl_app. reflexivity.
 Qed.
 
 End Walk.
+
+(** * reflexivity of the translations *)
+Lemma conv_deep_refl : forall t v, wf_val t v -> conv_deep t t v = Some v.
+Proof.
+  induction t as [| |k lo hi ext|c lo hi ext|lo hi ext|lo hi ext|e lo hi ext IH|fs so fc ea IH|alts std ext IH|vc std ext]
+    using ty_ind'; intros v Hv; destruct v as [b| |z|cs|bytes|bytes n|vs|vals|i x|i]; try contradiction Hv; try reflexivity.
+  - cbn [wf_val] in Hv. destruct Hv as [_ Hv]. change (all_wf_val e vs) in Hv. cbn [conv_deep].
+    assert (E : tr_list (conv_deep e e) vs = Some vs).
+    { induction vs as [|x vs IHl]; [reflexivity|]. cbn [all_wf_val] in Hv. destruct Hv as [Hx Hv].
+      cbn [tr_list]. rewrite (IH x Hx), (IHl Hv). reflexivity. }
+    rewrite E. reflexivity.
+  - change (all_wf_vals fs vals) in Hv. cbn [conv_deep]. rewrite skipn_all. cbn [pad_of map].
+    assert (E : tr_vals conv_deep fs fs vals = Some vals).
+    { revert vals Hv. induction IH as [|[k ft] fs Hf _ IHl]; intros [|ov vals] Hv; try contradiction Hv; [reflexivity|].
+      cbn [all_wf_vals] in Hv. destruct Hv as [Hv1 Hv]. rewrite tr_vals_cons. cbn [snd] in Hf.
+      destruct ov as [x|]; cbn [tr_ov].
+      - rewrite (Hf x Hv1). cbn [option_map]. rewrite (IHl vals Hv). reflexivity.
+      - rewrite (IHl vals Hv). reflexivity. }
+    rewrite E. cbn [option_map]. rewrite app_nil_r. reflexivity.
+  - change (pick_wf x alts (N.to_nat i)) in Hv. cbn [conv_deep].
+    assert (E : tr_pick conv_deep x alts alts (N.to_nat i) = Some x).
+    { revert Hv. generalize (N.to_nat i) as n.
+      induction IH as [|a alts Ha _ IHl]; intros [|n] Hv; cbn [pick_wf] in Hv; try contradiction Hv; cbn [tr_pick].
+      - apply Ha, Hv.
+      - apply IHl, Hv. }
+    rewrite E. reflexivity.
+  - cbn [wf_val] in Hv. cbn [conv_deep]. destruct (N.ltb_spec i vc); [reflexivity|lia].
+Qed.
+
+Lemma pad_deep_refl : forall t v, wf_val t v -> pad_deep t t v = v.
+Proof.
+  induction t as [| |k lo hi ext|c lo hi ext|lo hi ext|lo hi ext|e lo hi ext IH|fs so fc ea IH|alts std ext IH|vc std ext]
+    using ty_ind'; intros v Hv; destruct v as [b| |z|cs|bytes|bytes n|vs|vals|i x|i]; try contradiction Hv; try reflexivity.
+  - cbn [wf_val] in Hv. destruct Hv as [_ Hv]. change (all_wf_val e vs) in Hv. cbn [pad_deep]. f_equal.
+    induction vs as [|x vs IHl]; [reflexivity|]. cbn [all_wf_val] in Hv. destruct Hv as [Hx Hv].
+    cbn [map]. rewrite (IH x Hx), (IHl Hv). reflexivity.
+  - change (all_wf_vals fs vals) in Hv. cbn [pad_deep]. rewrite skipn_all. cbn [pad_of map]. rewrite app_nil_r. f_equal.
+    revert vals Hv. induction IH as [|[k ft] fs Hf _ IHl]; intros [|ov vals] Hv; try contradiction Hv; [reflexivity|].
+    cbn [all_wf_vals] in Hv. destruct Hv as [Hv1 Hv]. cbn [pad_vals]. fold (pad_vals pad_deep). cbn [snd] in Hf.
+    rewrite (IHl vals Hv). destruct ov as [x|]; cbn [option_map]; [rewrite (Hf x Hv1)|]; reflexivity.
+  - change (pick_wf x alts (N.to_nat i)) in Hv. cbn [pad_deep]. f_equal.
+    revert Hv. generalize (N.to_nat i) as n.
+    induction IH as [|a alts Ha _ IHl]; intros [|n] Hv; cbn [pick_wf] in Hv; try contradiction Hv; cbn [pad_pick].
+    + apply Ha, Hv.
+    + apply IHl, Hv.
+Qed.
+
+(** * small list facts *)
+Lemma Forall_Forall2_l {A B} (P : A -> Prop) (R : A -> B -> Prop) l l' :
+  Forall P l -> Forall2 R l l' -> Forall2 (fun a b => P a /\ R a b) l l'.
+Proof.
+  intros F F2. induction F2 as [|a b l l' Hab F2 IH]; [constructor|].
+  apply Forall_cons_iff in F. destruct F as [Ha F]. constructor; [split; assumption|apply IH; exact F].
+Qed.
+Lemma Forall2_swap {A B} (R : A -> B -> Prop) l l' : Forall2 R l l' -> Forall2 (fun b a => R a b) l' l.
+Proof. induction 1; constructor; assumption. Qed.
+Lemma Forall2_impl' {A B} (R R' : A -> B -> Prop) l l' :
+  (forall a b, R a b -> R' a b) -> Forall2 R l l' -> Forall2 R' l l'.
+Proof. intros H. induction 1; constructor; auto. Qed.
+Lemma Forall2_nth_error {A B} (R : A -> B -> Prop) l l' : Forall2 R l l' ->
+  forall n a b, nth_error l n = Some a -> nth_error l' n = Some b -> R a b.
+Proof.
+  induction 1 as [|x y l l' Hxy F IH]; intros [|n] a b Ha Hb; cbn [nth_error] in *; try discriminate.
+  - injection Ha as <-. injection Hb as <-. exact Hxy.
+  - eapply IH; eassumption.
+Qed.
+Lemma nth_error_app_lt {A} (l l' : list A) n a : nth_error (l ++ l') n = Some a -> (n < length l)%nat ->
+  nth_error l n = Some a.
+Proof. intros H L. rewrite nth_error_app1 in H by exact L. exact H. Qed.
+
+Lemma all_wf_fields_app a : forall b, all_wf_fields (a ++ b) -> all_wf_fields a /\ all_wf_fields b.
+Proof.
+  induction a as [|[k ft] a IH]; intros b H; cbn [app all_wf_fields] in *; [tauto|].
+  destruct H as (H1 & H2 & H3). destruct (IH b H3). tauto.
+Qed.
+Lemma all_wf_ty_app a : forall b, all_wf_ty (a ++ b) -> all_wf_ty a /\ all_wf_ty b.
+Proof.
+  induction a as [|t a IH]; intros b H; cbn [app all_wf_ty] in *; [tauto|].
+  destruct H as (H1 & H3). destruct (IH b H3). tauto.
+Qed.
+Lemma all_wf_ty_nth alts : all_wf_ty alts -> forall n t, nth_error alts n = Some t -> wf_ty t.
+Proof.
+  induction alts as [|a alts IH]; intros H [|n] t Hn; cbn [nth_error] in Hn; try discriminate;
+    cbn [all_wf_ty] in H; destruct H as [H1 H2].
+  - injection Hn as <-. exact H1.
+  - eapply IH; eassumption.
+Qed.
+
+Lemma tr_vals_app_r tr : forall fsW fsR rx vals, length fsW = length fsR ->
+  tr_vals tr fsW (fsR ++ rx) vals = tr_vals tr fsW fsR vals.
+Proof.
+  induction fsW as [|[kW tW] fsW IH]; intros [|[kR tR] fsR] rx vals Hl; try discriminate Hl; [reflexivity|].
+  destruct vals as [|ov vals]; [reflexivity|]. cbn [app]. rewrite !tr_vals_cons.
+  cbn [length] in Hl. rewrite IH by lia. reflexivity.
+Qed.
+Lemma tr_vals_app_l tr : forall fsW fsR wx vals, length fsW = length fsR ->
+  tr_vals tr (fsW ++ wx) fsR vals = tr_vals tr fsW fsR vals.
+Proof.
+  induction fsW as [|[kW tW] fsW IH]; intros [|[kR tR] fsR] wx vals Hl; try discriminate Hl.
+  - cbn [app]. destruct wx as [|[? ?] ?]; reflexivity.
+  - destruct vals as [|ov vals]; [reflexivity|]. cbn [app]. rewrite !tr_vals_cons.
+    cbn [length] in Hl. rewrite IH by lia. reflexivity.
+Qed.
+
+Lemma ed_is_choice t1 t2 : extends_deep t1 t2 -> is_choice t2 = is_choice t1.
+Proof. destruct 1; reflexivity. Qed.
+
+(** * the reader of one version on the encoding of the other, at any depth *)
+Lemma Cprop_ext m W R (f g : val -> option val) : (forall v, f v = g v) -> Cprop m W R f -> Cprop m W R g.
+Proof. intros E H v bs He Hv Hk s tail Hs. rewrite <- E. apply H; assumption. Qed.
+
+Lemma compat_refl m t : wf_ty t -> Cprop m t t (conv_deep t t).
+Proof.
+  intros Hty v bs He Hv Hk s tail Hs. rewrite (conv_deep_refl t v Hv).
+  apply (read_enc m t Hty v bs He Hv Hk s tail Hs).
+Qed.
+
+Definition comp_pre (m : mode) (fW fR : fkind * ty) : Prop :=
+  fst fR = fst fW /\ is_choice (snd fR) = is_choice (snd fW) /\
+  (wf_ty (snd fW) -> wf_ty (snd fR) -> Cprop m (snd fW) (snd fR) (conv_deep (snd fW) (snd fR))) /\
+  match fst fW with FDef _ => snd fW = snd fR | _ => True end.
+
+Lemma comp_ok_build m : forall fsW fsR, Forall2 (comp_pre m) fsW fsR ->
+  all_wf_fields fsW -> all_wf_fields fsR -> Forall2 (comp_ok m conv_deep) fsW fsR.
+Proof.
+  induction 1 as [|[kW tW] [kR tR] fsW fsR Hc F IH]; intros HW HR; [constructor|].
+  cbn [all_wf_fields] in HW, HR. destruct HW as (W1 & W2 & W3). destruct HR as (R1 & R2 & R3).
+  destruct Hc as (C1 & C2 & C3 & C4). cbn [fst snd] in *.
+  constructor; [|apply IH; assumption]. unfold comp_ok. cbn [fst snd].
+  repeat split; [exact C1|exact C2|apply C3; assumption|].
+  destruct kW as [| |d]; try exact I. subst tR. apply conv_deep_refl. exact W2.
+Qed.
+
+Definition ext_dir (fwd : bool) (W R : ty) : Prop := if fwd then extends_deep W R else extends_deep R W.
+
+Theorem compat_deep m : forall W R fwd, ext_dir fwd W R -> wf_ty W -> wf_ty R -> Cprop m W R (conv_deep W R).
+Proof.
+  induction W as [| |k lo hi ext|c lo hi ext|lo hi ext|lo hi ext|e lo hi ext IH|fs so fc ea IH|alts std ext IH|vc std ext]
+    using ty_ind'; intros R fwd H HW HR; destruct fwd; cbn [ext_dir] in H; inversion H; subst;
+    try (apply compat_refl; exact HW).
+  - (* SEQUENCE OF, forward *)
+    cbn [wf_ty] in HW, HR.
+    apply (Cprop_ext m _ _ (conv_list (conv_deep e e2))); [intros v; destruct v; reflexivity|].
+    apply C_list. apply (IH e2 true); [assumption|tauto|tauto].
+  - (* SEQUENCE OF, backward *)
+    cbn [wf_ty] in HW, HR.
+    apply (Cprop_ext m _ _ (conv_list (conv_deep e e1))); [intros v; destruct v; reflexivity|].
+    apply C_list. apply (IH e1 false); [assumption|tauto|tauto].
+  - (* SEQUENCE, forward: W = fs, R = fs2 ++ adds *)
+    match goal with F : Forall2 (field_ext extends_deep) _ _ |- _ => rename F into F2 end.
+    pose proof (Forall2_length' _ _ _ F2) as Hl.
+    pose proof HW as HW'. pose proof HR as HR'.
+    apply wf_ty_seq in HW'. destruct HW' as [(Wfc & Wlim & Wea & Wso) Wtf].
+    apply wf_ty_seq in HR'. destruct HR' as [_ Rtf]. apply all_wf_fields_app in Rtf. destruct Rtf as [Rtf _].
+    assert (FC : Forall2 (comp_ok m conv_deep) fs fs2).
+    { apply comp_ok_build; [|exact Wtf|exact Rtf].
+      refine (Forall2_impl' _ _ _ _ _ (Forall_Forall2_l _ _ _ _ IH F2)).
+      intros a b [Qi (Q1 & Q2 & Q3)]. unfold comp_pre. repeat split.
+      - symmetry. exact Q1.
+      - apply ed_is_choice. exact Q2.
+      - intros A B. apply (Qi (snd b) true Q2 A B).
+      - exact Q3. }
+    intros v bs He Hv Hk s tail Hs. destruct v as [| | | | | | |vals| |]; try contradiction Hv.
+    cbn [conv_deep]. rewrite skipn_app_exact by exact Hl. rewrite tr_vals_app_r by exact Hl.
+    destruct ea as [e|].
+    + pose proof (seq_compat2 m conv_deep fs fs2 [] adds so fc (fc + N.of_nat (length adds)) e vals bs s tail) as Q.
+      rewrite app_nil_r in Q.
+      rewrite (Q HW HR ltac:(lia) FC ltac:(assumption) (Forall_nil _) (or_intror eq_refl) Hv Hk He Hs).
+      destruct (tr_vals conv_deep fs fs2 vals); reflexivity.
+    + assert (adds = []) by (destruct adds; [reflexivity|exfalso; match goal with Q : _ <> [] -> None <> None |- _ => apply Q; [discriminate|reflexivity] end]).
+      subst adds. cbn [length pad_of map] in *. rewrite app_nil_r, N.add_0_r in *.
+      rewrite (seq_nonext2 m conv_deep fs fs2 so fc vals bs s tail HW FC Hv Hk He Hs).
+      destruct (tr_vals conv_deep fs fs2 vals) as [l|]; [|reflexivity]. cbn [option_map]. rewrite app_nil_r. reflexivity.
+  - (* SEQUENCE, backward: W = fs2 ++ adds, R = fs1 *)
+    match goal with F : Forall2 (field_ext extends_deep) _ _ |- _ => rename F into F2 end.
+    pose proof (Forall2_length' _ _ _ F2) as Hl.
+    pose proof HW as HW'. pose proof HR as HR'.
+    apply wf_ty_seq in HR'. destruct HR' as [(Rfc & Rlim & Rea & Rso) Rtf].
+    apply wf_ty_seq in HW'. destruct HW' as [_ Wtf]. apply all_wf_fields_app in Wtf. destruct Wtf as [Wtf _].
+    apply Forall_app in IH. destruct IH as [IH _].
+    assert (FC : Forall2 (comp_ok m conv_deep) fs2 fs1).
+    { apply comp_ok_build; [|exact Wtf|exact Rtf].
+      refine (Forall2_impl' _ _ _ _ _ (Forall_Forall2_l _ _ _ _ IH (Forall2_swap _ _ _ F2))).
+      intros a b [Qi (Q1 & Q2 & Q3)]. unfold comp_pre. repeat split.
+      - exact Q1.
+      - symmetry. apply ed_is_choice. exact Q2.
+      - intros A B. apply (Qi (snd b) false Q2 A B).
+      - rewrite <- Q1. destruct (fst b); try exact I. symmetry. exact Q3. }
+    intros v bs He Hv Hk s tail Hs. destruct v as [| | | | | | |vals| |]; try contradiction Hv.
+    cbn [conv_deep]. rewrite skipn_all2 by (rewrite app_length; lia). rewrite tr_vals_app_l by (symmetry; exact Hl).
+    cbn [pad_of map].
+    destruct ea as [e|].
+    + pose proof (seq_compat2 m conv_deep fs2 fs1 adds [] so (fc0 + N.of_nat (length adds)) fc0 e vals bs s tail) as Q.
+      rewrite app_nil_r in Q.
+      rewrite (Q HW HR ltac:(lia) FC (Forall_nil _) ltac:(assumption) (or_introl eq_refl) Hv Hk He Hs).
+      destruct (tr_vals conv_deep fs2 fs1 vals); reflexivity.
+    + assert (adds = []) by (destruct adds; [reflexivity|exfalso; match goal with Q : _ <> [] -> None <> None |- _ => apply Q; [discriminate|reflexivity] end]).
+      subst adds. cbn [length] in *. rewrite app_nil_r, N.add_0_r in *.
+      rewrite (seq_nonext2 m conv_deep fs2 fs1 so fc0 vals bs s tail HW FC Hv Hk He Hs).
+      destruct (tr_vals conv_deep fs2 fs1 vals) as [l|]; [|reflexivity]. cbn [option_map]. rewrite app_nil_r. reflexivity.
+  - (* CHOICE, forward *)
+    match goal with F : Forall2 extends_deep _ _ |- _ => rename F into F2 end.
+    pose proof (Forall2_length' _ _ _ F2) as Hl.
+    apply (Cprop_ext m _ _ (conv_choice conv_deep alts (a2 ++ more))); [intros v; destruct v; reflexivity|].
+    apply C_choice; [exact HW|exact HR|].
+    intros n tW tR HnW HnR.
+    assert (Ln : (n < length alts)%nat) by (apply nth_error_Some; congruence).
+    apply nth_error_app_lt in HnR; [|lia].
+    cbn [wf_ty] in HW, HR. destruct HW as (_ & _ & _ & _ & WA). destruct HR as (_ & _ & _ & _ & RA).
+    fold all_wf_ty in WA, RA. apply all_wf_ty_app in RA. destruct RA as [RA _].
+    rewrite Forall_forall in IH.
+    apply (IH tW (nth_error_In _ _ HnW) tR true (Forall2_nth_error _ _ _ F2 n tW tR HnW HnR)
+              (all_wf_ty_nth _ WA n tW HnW) (all_wf_ty_nth _ RA n tR HnR)).
+  - (* CHOICE, backward *)
+    match goal with F : Forall2 extends_deep _ _ |- _ => rename F into F2 end.
+    pose proof (Forall2_length' _ _ _ F2) as Hl.
+    apply (Cprop_ext m _ _ (conv_choice conv_deep (a2 ++ more) a1)); [intros v; destruct v; reflexivity|].
+    apply C_choice; [exact HW|exact HR|].
+    intros n tW tR HnW HnR.
+    assert (Ln : (n < length a1)%nat) by (apply nth_error_Some; congruence).
+    pose proof HnW as HnW'. apply nth_error_app_lt in HnW'; [|lia].
+    cbn [wf_ty] in HW, HR. destruct HW as (_ & _ & _ & _ & WA). destruct HR as (_ & _ & _ & _ & RA).
+    fold all_wf_ty in WA, RA.
+    rewrite Forall_forall in IH.
+    apply (IH tW (nth_error_In _ _ HnW) tR false (Forall2_nth_error _ _ _ F2 n tR tW HnR HnW')
+              (all_wf_ty_nth _ WA n tW HnW) (all_wf_ty_nth _ RA n tR HnR)).
+  - (* ENUMERATED, forward *)
+    intros v bs He Hv Hk s tail Hs. destruct v as [| | | | | | | | |i]; try contradiction Hv.
+    cbn [wf_val] in Hv. cbn [conv_deep]. destruct (N.ltb_spec i (vc + k)) as [L|L]; [|lia].
+    apply (enum_forward m vc k std i bs s tail HR Hv He Hs).
+  - (* ENUMERATED, backward *)
+    intros v bs He Hv Hk s tail Hs. destruct v as [| | | | | | | | |i]; try contradiction Hv.
+    cbn [wf_val] in Hv. cbn [conv_deep].
+    destruct (enum_backward m vc0 k std i bs s tail HR HW Hv He Hs) as [A B].
+    destruct (N.ltb_spec i vc0) as [L|L]; [apply A; exact L|apply B; lia].
+Qed.
+
+(** * forward: the translation is total *)
+Lemma conv_pad : forall V1 V2 v, extends_deep V1 V2 -> wf_val V1 v ->
+  conv_deep V1 V2 v = Some (pad_deep V1 V2 v).
+Proof.
+  induction V1 as [| |k lo hi ext|c lo hi ext|lo hi ext|lo hi ext|e lo hi ext IH|fs so fc ea IH|alts std ext IH|vc std ext]
+    using ty_ind'; intros V2 v H Hv; inversion H; subst;
+    try (rewrite conv_deep_refl, pad_deep_refl by exact Hv; reflexivity).
+  - destruct v as [b| |z|cs|bytes|bytes n|vs|vals|i x|i]; try contradiction Hv.
+    cbn [wf_val] in Hv. destruct Hv as [_ Hv]. change (all_wf_val e vs) in Hv. cbn [conv_deep pad_deep].
+    match goal with Hx : extends_deep e e2 |- _ => rename Hx into He end.
+    assert (E : tr_list (conv_deep e e2) vs = Some (map (pad_deep e e2) vs)).
+    { induction vs as [|x vs IHl]; [reflexivity|]. cbn [all_wf_val] in Hv. destruct Hv as [Hx Hv].
+      cbn [tr_list map]. rewrite (IH e2 x He Hx), (IHl Hv). reflexivity. }
+    rewrite E. reflexivity.
+  - destruct v as [b| |z|cs|bytes|bytes n|vs|vals|i x|i]; try contradiction Hv.
+    change (all_wf_vals fs vals) in Hv. cbn [conv_deep pad_deep].
+    match goal with F : Forall2 (field_ext extends_deep) _ _ |- _ => rename F into F2 end.
+    assert (E : tr_vals conv_deep fs (fs2 ++ adds) vals = Some (pad_vals pad_deep fs (fs2 ++ adds) vals)).
+    { pose proof (Forall_Forall2_l _ _ _ _ IH F2) as F. clear H IH F2. revert vals Hv.
+      induction F as [|[k1 t1] [k2 t2] fs1 fs2' [Hi (Q1 & Q2 & Q3)] F IHl]; intros vals Hv.
+      - destruct vals; [reflexivity|contradiction Hv].
+      - destruct vals as [|ov vals]; [contradiction Hv|]. cbn [all_wf_vals] in Hv. destruct Hv as [Hv1 Hv].
+        cbn [app]. rewrite tr_vals_cons. cbn [pad_vals]. fold (pad_vals pad_deep). cbn [snd] in Hi, Q2.
+        rewrite (IHl vals Hv).
+        destruct ov as [x|]; cbn [tr_ov option_map]; [rewrite (Hi t2 x Q2 Hv1)|]; reflexivity. }
+    rewrite E. reflexivity.
+  - destruct v as [b| |z|cs|bytes|bytes n|vs|vals|i x|i]; try contradiction Hv.
+    change (pick_wf x alts (N.to_nat i)) in Hv. cbn [conv_deep pad_deep].
+    match goal with F : Forall2 extends_deep _ _ |- _ => rename F into F2 end.
+    assert (E : tr_pick conv_deep x alts (a2 ++ more) (N.to_nat i) = Some (pad_pick pad_deep x alts (a2 ++ more) (N.to_nat i))).
+    { pose proof (Forall_Forall2_l _ _ _ _ IH F2) as F. clear H IH F2. revert Hv. generalize (N.to_nat i) as n.
+      induction F as [|t1 t2 a1 a2' [Hi Q] F IHl]; intros [|n] Hv; cbn [pick_wf] in Hv; try contradiction Hv;
+        cbn [app tr_pick pad_pick].
+      - apply Hi; assumption.
+      - apply IHl. exact Hv. }
+    rewrite E. reflexivity.
+  - destruct v as [b| |z|cs|bytes|bytes n|vs|vals|i x|i]; try contradiction Hv.
+    cbn [wf_val] in Hv. cbn [conv_deep pad_deep]. destruct (N.ltb_spec i (vc + k)); [reflexivity|lia].
+Qed.
+
+(** * backward: [forget_deep] fails only on an alternative / item the older version does not have *)
+(* the value, read positionally against the older type [R], contains a CHOICE index / ENUMERATED item
+   beyond the ones [R] has *)
+Fixpoint has_unknown (R : ty) (v : val) {struct R} : Prop :=
+  match R, v with
+  | TListOf e _ _ _, VList vs =>
+      (fix any (vs : list val) : Prop :=
+         match vs with [] => False | x :: r => has_unknown e x \/ any r end) vs
+  | TSeq fs _ _ _, VSeq vals =>
+      (fix any (fs : list (fkind * ty)) (vals : list (option val)) : Prop :=
+         match fs, vals with
+         | (_, t) :: fs', ov :: vals' =>
+             match ov with Some x => has_unknown t x | None => False end \/ any fs' vals'
+         | _, _ => False
+         end) fs vals
+  | TChoice alts _ _, VChoice i x =>
+      N.of_nat (length alts) <= i \/
+      (fix pick (alts : list ty) (n : nat) : Prop :=
+         match alts, n with
+         | a :: _, O => has_unknown a x
+         | _ :: r, S n' => pick r n'
+         | [], _ => False
+         end) alts (N.to_nat i)
+  | TEnum vc _ _, VEnum i => vc <= i
+  | _, _ => False
+  end.
+
+Definition unk_list (e : ty) :=
+  fix any (vs : list val) : Prop := match vs with [] => False | x :: r => has_unknown e x \/ any r end.
+Definition unk_vals :=
+  fix any (fs : list (fkind * ty)) (vals : list (option val)) : Prop :=
+    match fs, vals with
+    | (_, t) :: fs', ov :: vals' =>
+        match ov with Some x => has_unknown t x | None => False end \/ any fs' vals'
+    | _, _ => False
+    end.
+Definition unk_pick (x : val) :=
+  fix pick (alts : list ty) (n : nat) : Prop :=
+    match alts, n with
+    | a :: _, O => has_unknown a x
+    | _ :: r, S n' => pick r n'
+    | [], _ => False
+    end.
+
+Lemma option_map_none {A B} (f : A -> B) o : option_map f o = None -> o = None.
+Proof. destruct o; [discriminate|reflexivity]. Qed.
+
+Lemma conv_none_unknown : forall W R v, wf_val W v -> conv_deep W R v = None -> has_unknown R v.
+Proof.
+  induction W as [| |k lo hi ext|c lo hi ext|lo hi ext|lo hi ext|e lo hi ext IH|fs so fc ea IH|alts std ext IH|vc std ext]
+    using ty_ind'; intros R v Hv Hn.
+  1-6: destruct R; destruct v; discriminate Hn.
+  - destruct R as [| | | | | |eR lo' hi' ext'| | |]; try (destruct v; discriminate Hn).
+    destruct v as [b| |z|cs|bytes|bytes n|vs|vals|i x|i]; try discriminate Hn.
+    cbn [wf_val] in Hv. destruct Hv as [_ Hv]. change (all_wf_val e vs) in Hv.
+    cbn [conv_deep] in Hn. apply option_map_none in Hn. change (unk_list eR vs).
+    induction vs as [|x vs IHl]; [discriminate Hn|]. cbn [all_wf_val] in Hv. destruct Hv as [Hx Hv].
+    cbn [tr_list] in Hn. cbn [unk_list].
+    destruct (conv_deep e eR x) eqn:Ex; [|left; apply (IH eR x Hx Ex)].
+    right. apply IHl; [exact Hv|]. apply option_map_none in Hn. exact Hn.
+  - destruct R as [| | | | | | |fsR so' fc' ea'| |]; try (destruct v; discriminate Hn).
+    destruct v as [b| |z|cs|bytes|bytes n|vs|vals|i x|i]; try discriminate Hn.
+    change (all_wf_vals fs vals) in Hv. cbn [conv_deep] in Hn. apply option_map_none in Hn.
+    change (unk_vals fsR vals). clear so fc ea so' fc' ea'.
+    revert fsR vals Hv Hn. induction IH as [|[kW tW] fsW Hf _ IHl]; intros fsR vals Hv Hn; [discriminate Hn|].
+    destruct fsR as [|[kR tR] fsR]; [discriminate Hn|]. destruct vals as [|ov vals]; [discriminate Hn|].
+    cbn [all_wf_vals] in Hv. destruct Hv as [Hv1 Hv]. rewrite tr_vals_cons in Hn. cbn [unk_vals snd] in *.
+    destruct ov as [x|]; cbn [tr_ov] in Hn.
+    + destruct (conv_deep tW tR x) eqn:Ex; [|left; apply (Hf tR x Hv1 Ex)]. cbn [option_map] in Hn.
+      right. apply IHl; [exact Hv|]. apply option_map_none in Hn. exact Hn.
+    + right. apply IHl; [exact Hv|]. apply option_map_none in Hn. exact Hn.
+  - destruct R as [| | | | | | | |aR std' ext'|]; try (destruct v; discriminate Hn).
+    destruct v as [b| |z|cs|bytes|bytes n|vs|vals|i x|i]; try discriminate Hn.
+    change (pick_wf x alts (N.to_nat i)) in Hv. cbn [conv_deep] in Hn. apply option_map_none in Hn.
+    change (N.of_nat (length aR) <= i \/ unk_pick x aR (N.to_nat i)).
+    assert (Q : (length aR <= N.to_nat i)%nat \/ unk_pick x aR (N.to_nat i)).
+    { revert Hv Hn. generalize (N.to_nat i) as n. revert aR.
+      induction IH as [|tW aW Ha _ IHl]; intros aR n Hv Hn; [destruct n; contradiction Hv|].
+      destruct aR as [|tR aR]; [left; cbn [length]; lia|].
+      destruct n as [|n]; cbn [pick_wf tr_pick unk_pick length] in *.
+      - right. apply (Ha tR x Hv Hn).
+      - destruct (IHl aR n Hv Hn) as [L|U]; [left; lia|right; exact U]. }
+    destruct Q as [L|U]; [left; lia|right; exact U].
+  - destruct R as [| | | | | | | | |vcR std' ext']; try (destruct v; discriminate Hn).
+    destruct v as [b| |z|cs|bytes|bytes n|vs|vals|i x|i]; try discriminate Hn.
+    cbn [conv_deep] in Hn. cbn [has_unknown]. destruct (N.ltb_spec i vcR); [discriminate Hn|assumption].
+Qed.
+
+(** * the end-to-end statements at any depth *)
+Theorem C05_forward_deep_thm m V1 V2 v bs s tail :
+  extends_deep V1 V2 -> wf_ty V1 -> wf_ty V2 -> wf_val V1 v -> ~ Known_C01 m V1 v ->
+  enc m V1 v = Ok bs -> rsrc s bs tail ->
+  read_ty m V2 (r_of_src s) = Ok (pad_deep V1 V2 v, r_of_src (src_adv s (bl bs) tail)).
+Proof.
+  intros Hext H1 H2 Hv Hk He Hs.
+  rewrite (compat_deep m V1 V2 true Hext H1 H2 v bs He Hv Hk s tail Hs), (conv_pad V1 V2 v Hext Hv). reflexivity.
+Qed.
+
+Theorem C05_backward_deep_thm m V1 V2 v bs s tail :
+  extends_deep V1 V2 -> wf_ty V1 -> wf_ty V2 -> wf_val V2 v -> ~ Known_C01 m V2 v ->
+  enc m V2 v = Ok bs -> rsrc s bs tail ->
+  (forall v', forget_deep V1 V2 v = Some v' ->
+     read_ty m V1 (r_of_src s) = Ok (v', r_of_src (src_adv s (bl bs) tail))) /\
+  (forget_deep V1 V2 v = None ->
+     read_ty m V1 (r_of_src s) = Err E_INVALID_CHOICE /\ has_unknown V1 v) /\
+  (~ has_unknown V1 v -> exists v', forget_deep V1 V2 v = Some v').
+Proof.
+  intros Hext H1 H2 Hv Hk He Hs. unfold forget_deep.
+  pose proof (compat_deep m V2 V1 false Hext H2 H1 v bs He Hv Hk s tail Hs) as Q.
+  split; [|split].
+  - intros v' E. rewrite E in Q. exact Q.
+  - intros E. rewrite E in Q. split; [exact Q|]. apply (conv_none_unknown V2 V1 v Hv E).
+  - intros Hu. destruct (conv_deep V2 V1 v) as [v'|] eqn:E; [exists v'; reflexivity|].
+    exfalso. apply Hu. apply (conv_none_unknown V2 V1 v Hv E).
+Qed.
+
+(* the top-level pairs of CompatFullProofs are instances *)
+Lemma Forall2_field_refl : forall fs, Forall2 (field_ext extends_deep) fs fs.
+Proof.
+  induction fs as [|[k t] fs IH]; constructor; [|exact IH].
+  unfold field_ext. cbn [fst snd]. repeat split; [apply ed_refl|destruct k; reflexivity || exact I].
+Qed.
+Lemma Forall2_ed_refl : forall l, Forall2 extends_deep l l.
+Proof. induction l; constructor; [apply ed_refl|assumption]. Qed.
+
+Lemma extends_is_deep V1 V2 : extends V1 V2 -> extends_deep V1 V2 /\ wf_ty V1 /\ wf_ty V2.
+Proof.
+  intros [fs adds so fc ea Hty1 Hty2 Fo|alts more std Hty1 Hty2|vc k std Hty1 Hty2]; (split; [|split; assumption]).
+  - apply ed_seq; [apply Forall2_field_refl|exact Fo|discriminate].
+  - apply ed_choice; [apply Forall2_ed_refl|reflexivity].
+  - apply ed_enum.
+Qed.
+
+(* the reader ends exactly at the end of the message: a value written after it decodes correctly *)
+Theorem C05_sentinel_forward_deep_thm m V1 V2 v bs T x bs' s tail :
+  extends_deep V1 V2 -> wf_ty V1 -> wf_ty V2 -> wf_val V1 v -> ~ Known_C01 m V1 v -> enc m V1 v = Ok bs ->
+  wf_ty T -> wf_val T x -> ~ Known_C01 m T x -> enc m T x = Ok bs' ->
+  rsrc s (bs ++ bs') tail ->
+  exists r1, read_ty m V2 (r_of_src s) = Ok (pad_deep V1 V2 v, r1) /\
+             read_ty m T r1 = Ok (x, r_of_src (src_adv s (bl (bs ++ bs')) tail)).
+Proof.
+  intros Hext H1 H2 Hv Hk He HtyT HvT HkT HeT Hs. apply rsrc_split in Hs. destruct Hs as [Hs1 Hs2].
+  eexists. split; [apply (C05_forward_deep_thm m V1 V2 v bs s _ Hext H1 H2 Hv Hk He Hs1)|].
+  rewrite (read_enc m T HtyT x bs' HeT HvT HkT _ _ Hs2), src_adv_adv, bl_app. reflexivity.
+Qed.
+
+Theorem C05_sentinel_backward_deep_thm m V1 V2 v v' bs T x bs' s tail :
+  extends_deep V1 V2 -> wf_ty V1 -> wf_ty V2 -> wf_val V2 v -> ~ Known_C01 m V2 v -> enc m V2 v = Ok bs ->
+  forget_deep V1 V2 v = Some v' ->
+  wf_ty T -> wf_val T x -> ~ Known_C01 m T x -> enc m T x = Ok bs' ->
+  rsrc s (bs ++ bs') tail ->
+  exists r1, read_ty m V1 (r_of_src s) = Ok (v', r1) /\
+             read_ty m T r1 = Ok (x, r_of_src (src_adv s (bl (bs ++ bs')) tail)).
+Proof.
+  intros Hext H1 H2 Hv Hk He Hf HtyT HvT HkT HeT Hs. apply rsrc_split in Hs. destruct Hs as [Hs1 Hs2].
+  eexists. split; [apply (proj1 (C05_backward_deep_thm m V1 V2 v bs s _ Hext H1 H2 Hv Hk He Hs1) v' Hf)|].
+  rewrite (read_enc m T HtyT x bs' HeT HvT HkT _ _ Hs2), src_adv_adv, bl_app. reflexivity.
+Qed.
+
+(** * [extends_deep] is transitive (V1 -> V2 -> V3: the additions accumulate at every node) *)
+Lemma Forall2_trans_gen {A} (R : A -> A -> Prop) (P : A -> Prop) :
+  (forall a b c, P a -> R a b -> R b c -> R a c) ->
+  forall l1 l2 l3, Forall P l1 -> Forall2 R l1 l2 -> Forall2 R l2 l3 -> Forall2 R l1 l3.
+Proof.
+  intros HT l1 l2 l3 F F12. revert l3. induction F12 as [|a b l1 l2 Hab F12 IH]; intros l3 F23.
+  - inversion F23. constructor.
+  - inversion F23 as [|b' c l2' l3' Hbc F23']; subst. apply Forall_cons_iff in F. destruct F as [Pa F].
+    constructor; [eapply HT; eassumption|apply IH; assumption].
+Qed.
+
+Lemma field_ext_optk : forall l l', Forall2 (field_ext extends_deep) l l' -> Forall optk l -> Forall optk l'.
+Proof.
+  induction 1 as [|a b l l' (Q1 & _) F IH]; intros Fo; [constructor|].
+  apply Forall_cons_iff in Fo. destruct Fo as [Oa Fo]. constructor; [|apply IH; exact Fo].
+  unfold optk in *. rewrite <- Q1. exact Oa.
+Qed.
+
+Theorem extends_deep_trans : forall A B C, extends_deep A B -> extends_deep B C -> extends_deep A C.
+Proof.
+  induction A as [| |k lo hi ext|c lo hi ext|lo hi ext|lo hi ext|e lo hi ext IH|fs so fc ea IH|alts std ext IH|vc std ext]
+    using ty_ind'; intros B C H1 H2; inversion H1; subst; try exact H2.
+  - (* SEQUENCE OF *)
+    inversion H2; subst; [exact H1|]. apply ed_list. eapply IH; eassumption.
+  - (* SEQUENCE / SET *)
+    inversion H2 as [|?|fs1' fs2' adds' so' fc' ea' F23 Fo' Hne'| |]; subst; [exact H1|].
+    match goal with F : Forall2 (field_ext extends_deep) fs _ |- _ => rename F into F12 end.
+    apply Forall2_app_inv_l in F23. destruct F23 as (fa & fb & Fa & Fb & ->).
+    pose proof (Forall2_length' _ _ _ Fb) as Lb.
+    replace (TSeq ((fa ++ fb) ++ adds') so (fc + N.of_nat (length adds) + N.of_nat (length adds')) ea)
+      with (TSeq (fa ++ (fb ++ adds')) so (fc + N.of_nat (length (fb ++ adds'))) ea)
+      by (rewrite app_assoc, app_length; f_equal; lia).
+    apply ed_seq.
+    + refine (Forall2_trans_gen _ _ _ fs fs2 fa IH F12 Fa).
+      intros a b c Pa (Q1 & Q2 & Q3) (S1 & S2 & S3). unfold field_ext. repeat split.
+      * congruence.
+      * eapply Pa; eassumption.
+      * destruct (fst a) eqn:Ea; try exact I. rewrite <- Q1 in S3. rewrite Q3. exact S3.
+    + apply Forall_app. split; [eapply field_ext_optk; eassumption|exact Fo'].
+    + intros Hne. destruct adds as [|x adds]; [|match goal with Q : _ :: _ <> [] -> ea <> None |- _ => apply Q; discriminate end].
+      inversion Fb; subst. cbn [app] in Hne. apply Hne'. exact Hne.
+  - (* CHOICE *)
+    inversion H2 as [| | |a1' a2' more' std' ext' F23 Hne'|]; subst; [exact H1|].
+    match goal with F : Forall2 extends_deep alts _ |- _ => rename F into F12 end.
+    apply Forall2_app_inv_l in F23. destruct F23 as (ca & cb & Fa & Fb & ->).
+    rewrite <- app_assoc. apply ed_choice.
+    + refine (Forall2_trans_gen _ _ _ alts a2 ca IH F12 Fa). intros a b c Pa Q S. eapply Pa; eassumption.
+    + intros Hne. destruct more as [|x more]; [|match goal with Q : _ :: _ <> [] -> ext = true |- _ => apply Q; discriminate end].
+      inversion Fb; subst. cbn [app] in Hne. apply Hne'. exact Hne.
+  - (* ENUMERATED *)
+    inversion H2; subst; [exact H1|]. rewrite <- N.add_assoc. apply ed_enum.
+Qed.
+
+(** * non-vacuity: the evolving type inside a SEQUENCE OF (root component) and inside an extension
+      addition (open type) of an outer SEQUENCE at once.
+      Outer ::= SEQUENCE { hdr INTEGER(0..255), body SEQUENCE OF Inner, ..., tail Inner OPTIONAL }
+      Inner V1 ::= SEQUENCE { a BOOLEAN, ... }     Inner V2 ::= SEQUENCE { a BOOLEAN, ..., b OCTET STRING OPTIONAL } *)
+Definition exn_inner1 : ty := TSeq [(FReq, TBool)] 0 1 (Some 0).
+Definition exn_inner2 : ty := TSeq [(FReq, TBool); (FOpt, TOctets None None false)] 0 2 (Some 0).
+Definition exn_outer (inner : ty) : ty :=
+  TSeq [(FReq, TInt U8 (Some 0%Z) (Some 255%Z) false); (FReq, TListOf inner None None false); (FOpt, inner)]
+       0 3 (Some 1).
+Definition exn_V1 : ty := exn_outer exn_inner1.
+Definition exn_V2 : ty := exn_outer exn_inner2.
+(* V2 data: b present in the first element and in tail, absent in the second element *)
+Definition exn_v2 : val :=
+  VSeq [Some (VInt 7);
+        Some (VList [VSeq [Some (VBool true); Some (VOctets [1; 2; 3])]; VSeq [Some (VBool false); None]]);
+        Some (VSeq [Some (VBool true); Some (VOctets [9])])].
+Definition exn_v2_seen_by_V1 : val :=
+  VSeq [Some (VInt 7); Some (VList [VSeq [Some (VBool true)]; VSeq [Some (VBool false)]]); Some (VSeq [Some (VBool true)])].
+Definition exn_v1 : val :=
+  VSeq [Some (VInt 200); Some (VList [VSeq [Some (VBool false)]]); Some (VSeq [Some (VBool true)])].
+Definition exn_v1_seen_by_V2 : val :=
+  VSeq [Some (VInt 200); Some (VList [VSeq [Some (VBool false); None]]); Some (VSeq [Some (VBool true); None])].
+
+(* an ENUMERATED that gained an item, inside a SEQUENCE inside a SEQUENCE OF: the new item makes the
+   old reader fail with InvalidChoiceIndex, the old items decode *)
+Definition exn_E1 : ty := TListOf (TSeq [(FReq, TEnum 2 2 true); (FReq, TBool)] 0 2 None) None None false.
+Definition exn_E2 : ty := TListOf (TSeq [(FReq, TEnum 3 2 true); (FReq, TBool)] 0 2 None) None None false.
+Definition exn_e_known : val := VList [VSeq [Some (VEnum 1); Some (VBool true)]; VSeq [Some (VEnum 0); Some (VBool false)]].
+Definition exn_e_unknown : val := VList [VSeq [Some (VEnum 1); Some (VBool true)]; VSeq [Some (VEnum 2); Some (VBool false)]].
+
+Lemma exn_inner_extends : extends_deep exn_inner1 exn_inner2.
+Proof.
+  apply (ed_seq [(FReq, TBool)] [(FReq, TBool)] [(FOpt, TOctets None None false)] 0 1 (Some 0)).
+  - apply Forall2_field_refl.
+  - repeat constructor.
+  - discriminate.
+Qed.
+
+Lemma exn_extends : extends_deep exn_V1 exn_V2.
+Proof.
+  apply (ed_seq [(FReq, TInt U8 (Some 0%Z) (Some 255%Z) false); (FReq, TListOf exn_inner1 None None false); (FOpt, exn_inner1)]
+                [(FReq, TInt U8 (Some 0%Z) (Some 255%Z) false); (FReq, TListOf exn_inner2 None None false); (FOpt, exn_inner2)]
+                [] 0 3 (Some 1)).
+  - repeat constructor; cbn [fst snd]; try reflexivity; try apply ed_refl; try apply ed_list; apply exn_inner_extends.
+  - constructor.
+  - intros C. contradiction C. reflexivity.
+Qed.
+
+Lemma exn_E_extends : extends_deep exn_E1 exn_E2.
+Proof.
+  apply ed_list.
+  apply (ed_seq [(FReq, TEnum 2 2 true); (FReq, TBool)] [(FReq, TEnum 3 2 true); (FReq, TBool)] [] 0 2 None).
+  - repeat constructor; cbn [fst snd]; try reflexivity; try apply ed_refl. apply (ed_enum 2 1 2).
+  - constructor.
+  - intros C. contradiction C. reflexivity.
+Qed.
+
+Ltac exn_unfold :=
+  unfold exn_V1, exn_V2, exn_outer, exn_inner1, exn_inner2, exn_v1, exn_v2, exn_E1, exn_E2, exn_e_known, exn_e_unknown in *.
+Ltac exn_not_known :=
+  let C := fresh "C" in
+  intros C; exn_unfold; cbn [Known_C01 app] in C;
+  repeat match goal with
+         | H : _ \/ _ |- _ => destruct H
+         | H : _ /\ _ |- _ => destruct H
+         | H : False |- _ => contradiction H
+         | H : Known_C01_open_type_16k _ _ _ |- _ =>
+             let b := fresh "b" in let E := fresh "E" in let L := fresh "L" in
+             destruct H as (b & E & L); vm_compute in E; injection E as <-; vm_compute in L; apply L; reflexivity
+         | H : Known_C10_sized_length _ _ _ |- _ => destruct H as [H _]; apply H; reflexivity
+         | H : Known_C01_len _ _ _ _ |- _ => destruct H
+         | H : Known_C01_size_F10_1 _ _ _ _ |- _ => destruct H as [_ H]; apply H; reflexivity
+         | H : Known_C01_count_16k _ _ _ _ |- _ => destruct H as [H _]; vm_compute in H; apply H; reflexivity
+         end.
+Ltac exn_wf_value :=
+  exn_unfold; cbn [wf_val app]; repeat split; try reflexivity; try (vm_compute; reflexivity);
+  try (repeat constructor; reflexivity).
+
+Lemma nonvacuous_c05_nested :
+  extends_deep exn_V1 exn_V2 /\ wf_ty exn_V1 /\ wf_ty exn_V2 /\
+  (wf_val exn_V2 exn_v2 /\ ~ Known_C01 dev_mode exn_V2 exn_v2) /\
+  (wf_val exn_V1 exn_v1 /\ ~ Known_C01 dev_mode exn_V1 exn_v1) /\
+  (* backward: V2 data (b present inside the SEQUENCE OF and inside the open type) under V1, sentinel after it *)
+  forget_deep exn_V1 exn_V2 exn_v2 = Some exn_v2_seen_by_V1 /\
+  compat_run dev_mode exn_V2 exn_V1 exn_v2 ex5_sentinel (VInt 165) = Some (exn_v2_seen_by_V1, VInt 165, true) /\
+  compat_run release_mode exn_V2 exn_V1 exn_v2 ex5_sentinel (VInt 165) = Some (exn_v2_seen_by_V1, VInt 165, true) /\
+  (* forward: V1 data under V2 *)
+  pad_deep exn_V1 exn_V2 exn_v1 = exn_v1_seen_by_V2 /\
+  compat_run dev_mode exn_V1 exn_V2 exn_v1 ex5_sentinel (VInt 165) = Some (exn_v1_seen_by_V2, VInt 165, true) /\
+  (* a nested ENUMERATED item the old version does not have: an error, never a value *)
+  extends_deep exn_E1 exn_E2 /\ wf_ty exn_E1 /\ wf_ty exn_E2 /\
+  (wf_val exn_E2 exn_e_unknown /\ ~ Known_C01 dev_mode exn_E2 exn_e_unknown) /\
+  forget_deep exn_E1 exn_E2 exn_e_unknown = None /\ has_unknown exn_E1 exn_e_unknown /\
+  forget_deep exn_E1 exn_E2 exn_e_known = Some exn_e_known /\
+  match enc dev_mode exn_E2 exn_e_unknown with
+  | Ok bs => read_ty dev_mode exn_E1 (r_of_src (src_of_bits bs (bl bs))) = Err E_INVALID_CHOICE
+  | _ => False
+  end.
+Proof.
+  split; [exact exn_extends|].
+  split; [vm_compute; repeat split; try discriminate; try reflexivity|].
+  split; [vm_compute; repeat split; try discriminate; try reflexivity|].
+  split; [split; [exn_wf_value|exn_not_known]|].
+  split; [split; [exn_wf_value|exn_not_known]|].
+  split; [vm_compute; reflexivity|].
+  split; [vm_compute; reflexivity|].
+  split; [vm_compute; reflexivity|].
+  split; [vm_compute; reflexivity|].
+  split; [vm_compute; reflexivity|].
+  split; [exact exn_E_extends|].
+  split; [vm_compute; repeat split; try discriminate; try reflexivity|].
+  split; [vm_compute; repeat split; try discriminate; try reflexivity|].
+  split; [split; [exn_wf_value|exn_not_known]|].
+  split; [vm_compute; reflexivity|].
+  split; [cbn; right; left; left; vm_compute; discriminate|].
+  split; [vm_compute; reflexivity|].
+  vm_compute. reflexivity.
+Qed.
